@@ -56,6 +56,14 @@ type Engine struct {
 	strOps    map[string]bool
 	loopStates map[*loopInfo]*liState
 	oblCount map[string]int
+	callsSeen map[string]int
+	inlineMemo map[*ssa.Function]string
+	pendingWrites []map[string]bool
+	curExitCode string
+	exitSites []exitSite
+	ghostWrites []ghostWriteRec
+	ghostEvents [][3]string
+	epochs map[string]int
 	litHooks []func()
 	inLitHook bool
 	hookKeys map[string]bool
@@ -76,8 +84,10 @@ type Engine struct {
 
 func newEngine(w *World) *Engine {
 	e := &Engine{w: w, sc: newScript(), comps: map[string]*component{}, lits: map[string]string{}, litFacts: map[string]bool{},
-		guard: "true", hookKeys: map[string]bool{}, allocReach: map[string]string{}, pureMemo: map[string]Val{}, loopAllocN: map[string]int{}, tags: map[string]int{}, funcIDs: map[*ssa.Function]int{}, abstracted: map[string]int{}, assumedExt: map[string]int{},
+		guard: "true", curExitCode: "(_ bv0 64)", epochs: map[string]int{}, hookKeys: map[string]bool{}, allocReach: map[string]string{}, pureMemo: map[string]Val{}, loopAllocN: map[string]int{}, tags: map[string]int{}, funcIDs: map[*ssa.Function]int{}, abstracted: map[string]int{}, assumedExt: map[string]int{},
 		inlined: map[string]int{}, usedContracts: map[string]int{}, uf: map[string]bool{}, strOps: map[string]bool{}, loopStates: map[*loopInfo]*liState{}, oblCount: map[string]int{}, memo: map[string]execResult{}, dirty: map[string]bool{}}
+	e.inlineMemo = map[*ssa.Function]string{}
+	e.callsSeen = map[string]int{}
 	e.sc.add("(declare-sort F64 0)")
 	e.sc.add("(declare-const f64_zero F64)")
 	e.sc.add("(declare-const str_empty Str)")
@@ -218,6 +228,15 @@ type deferred struct {
 	fn   Val
 }
 
+// exitSite is a call of os.Exit (or log.Fatal*): condition, exit code, heap snapshot.
+type exitSite struct {
+	cond string
+	code string
+	heap Heap
+	pos  string
+	nwrites int
+}
+
 type retSite struct {
 	cond string
 	val  Val
@@ -231,6 +250,7 @@ type loopInfo struct {
 	decs   []*ssa.Call
 	cone   []ssa.Instruction // pure instructions (outside header) feeding ghost calls, in order
 	base   string            // allocation base symbol of the loop body
+	points []ssa.Value       // addresses of single cells written in the loop
 }
 
 type execResult struct {
@@ -472,6 +492,12 @@ func (e *Engine) findGhostCalls(fr *frame, li *loopInfo) {
 					continue
 				}
 				return found
+			}
+			if st, ok := ins.(*ssa.Store); ok {
+				// the copy of the range value into its (address-taken) variable precedes the ghost calls
+				if a, isA := st.Addr.(*ssa.Alloc); isA && a.Block() == b {
+					continue
+				}
 			}
 			switch ins.(type) {
 			case *ssa.Store, *ssa.MapUpdate, *ssa.Defer, *ssa.Go, *ssa.Send, *ssa.Panic, *ssa.RunDefers:
